@@ -144,6 +144,10 @@ type version struct {
 	Hex    string `json:"hex,omitempty"`
 	Err    string `json:"err,omitempty"`   // error returned by the save ("" = success)
 	Label  string `json:"label,omitempty"` // which save
+	// Skipped: the save path decided, without error, not to replace the file.
+	Skipped bool `json:"skipped,omitempty"`
+	// ExpectErr: the harness provoked the failure (failed download ...).
+	ExpectErr bool `json:"expect_err,omitempty"`
 }
 
 func snapshot(path string) (v version) {
@@ -188,6 +192,24 @@ func (c *Case) Save(label string, f func() error) error {
 	}
 	c.versions = append(c.versions, v)
 	return err
+}
+
+// SaveB is Save for save paths that report whether they replaced the file;
+// expectErr says the harness provoked a failure on purpose.
+func (c *Case) SaveB(label string, expectErr bool, f func() (bool, error)) (replaced bool, err error) {
+	replaced, err = f()
+	v := snapshot(c.Dst)
+	v.Label, v.ExpectErr = label, expectErr
+	if err != nil {
+		v.Err = err.Error()
+		if len(v.Err) > 200 {
+			v.Err = v.Err[:200]
+		}
+	} else {
+		v.Skipped = !replaced
+	}
+	c.versions = append(c.versions, v)
+	return replaced, err
 }
 
 // Class adds a branch class.
